@@ -164,7 +164,7 @@ func drawFixed(e hx.Entry, w *hx.World) *hx.Call {
 }
 
 func TestRandom(t *testing.T) {
-	ev.Check(t, "TestRandom", ev.PickN(2000, 50000), func(t *rapid.T) {
+	ev.Check(t, "TestRandom", ev.PickN(2000, 400000), func(t *rapid.T) {
 		c := hx.GenCreds(hx.Suites24()).Draw(t, "creds")
 		if err := runCase(t, c); err != nil {
 			t.Fatalf("%v", err)
